@@ -7,11 +7,13 @@ from .common import guarded, run_model, rat, F
 RULE = ("n in 1..12 with every x (quick) plus generated n up to 60 (200 thorough) and n in 255..1000 with counts at / next to the ends given as fresh ints, NumPy integers or computed from data, levels {.5,.8,.9,.95,.975,.99}, three "
         "alternatives, starting points p and solver keywords; the returned doubles are certified by exact "
         "rational evaluation of the defining tail inequality at +-delta; non-trivial = 0 < x < n; distinct by arguments")
-LEVEL = ("theorems binomSf_mono_p, cp_coverage_lower / cp_coverage_upper (coverage for every true p from certified "
+LEVEL = ("theorems binomSf_mono_p / binomSf_strictMono_p, cp_lower_mono_x, cp_*_nested, cp_lower_le_upper, cp_coverage_lower / cp_coverage_upper (coverage for every true p from certified "
          "limits), binomCICert_sound; the certificate checker is the model's executable definition and is run on "
          "every interval the implementation returns")
 ASSUMPTIONS = ["root finding is not modelled: each returned limit is certified exactly with slack delta = max(1e-9, 4*xtol)",
-               "lower <= x/n <= upper (cl >= 1/2), monotonicity in x and nesting in cl are checked on the implementation, not proved"]
+               "monotonicity in x, nesting in cl and lower <= upper follow for any certified limits from CPMono.cp_lower_mono_x / "
+               "cp_upper_mono_x / cp_lower_nested / cp_upper_nested / cp_lower_le_upper (strict monotonicity of the tails in p); "
+               "lower <= x/n <= upper (cl >= 1/2) is checked on the implementation, not proved"]
 CLS = [0.95, 0.9, 0.975, 0.5, 0.99, 0.8, 0.3, 0.05]
 ALTS = ["two-sided", "lower", "upper"]
 
